@@ -174,7 +174,10 @@ Cmp(op, o, e) ==
       [] op = "wald"  -> F("WaldAdjusted", Within(o.adj, e.adj, e.eadj)) \cup F("WaldOriginal", Within(o.org, e.org, e.eorg))
       [] op = "score" -> F("ScoreAdjusted", Within(o.adj, e.adj, e.eadj)) \cup F("ScoreOriginal", Within(o.org, e.org, e.eorg))
 Need(r, ok) == Assert(ok, <<"closed-form comparison not decidable for record (screening missed it)", r.id>>)
-FStat(r) == IF Raised(r) THEN {"Raised"}
+\* nested_indices is documented as a list of positions; given as a tuple (in.forms[3] = "tuple") numpy reads it as a
+\* multi-dimensional index and the call is refused: accepted (the statement does not promise tuples), a value must be right
+TupleNested(r) == "forms" \in DOMAIN r.in /\ Len(r.in.forms) >= 3 /\ r.in.forms[3] = "tuple"
+FStat(r) == IF Raised(r) THEN (IF TupleNested(r) THEN {} ELSE {"Raised"})
             ELSE LET e == Expected(r.op, r.in) IN IF Need(r, e.dec) THEN Cmp(r.op, r.out, e) ELSE {}
 \* screening record: which of the five statistics can be decided for this case
 FScreen(r) == UNION {F("Undecidable_" \o op, Expected(op, r.in).dec) : op \in {o \in {"fim", "gim", "godambe", "lrt", "wald", "score"} : \E j \in 1..Len(r.in.ops) : r.in.ops[j] = o}}
